@@ -17,7 +17,7 @@ from .c12 import build, take, anchor_input
 
 PROPERTY = "C14"
 L = lift
-IV = {"PT36H": dict(hours=36), "P1D": dict(days=1), "P1M": dict(months=1), "P1Y2D": dict(years=1, days=2)}
+IV = {"PT36H": dict(hours=36), "P1D": dict(days=1), "P1M": dict(months=1), "P1Y2D": dict(years=1, days=2), "P31D": dict(days=31)}
 
 
 def same_dur_z3(a, b):
@@ -91,6 +91,57 @@ def job_shift(ctx, mode, fmt, reps, iv, unit, lo, hi, ranges=None):
                    case_of, ranges=ranges,
                    scenarios=lambda i: {"shift fmt%d" % fmt: True, "single-point recurrence": reps == 1,
                                         "negative shift": conc(i["n"]) < 0},
+                   bounds={"interval": iv, "repetitions": reps, "shift": {unit: [lo, hi]}}, sample_every=100)
+
+
+def job_shift_nominal(ctx, mode, fmt, reps, iv, unit, lo, hi, rep="cal", ranges=None):
+    """shift by a month / year duration: the statement fixes repetitions, interval (start/duration and duration/end
+    notations) and that every *given* anchor is moved by d - i.e. equals anchor + d as TimePoint addition (C05's
+    subject) computes it.  Anchors in calendar form on month ends so that clipping matters."""
+    data = ctx.data
+    C.set_mode(data, mode)
+    install_range_summary(data, mode)
+    kw = IV[iv]
+
+    def make(e):
+        return {"a": anchor_input(e, data, "", rep), "n": e.var("n", lo, hi)}
+
+    def pre(i):
+        return C.m_valid_point(mode, i["a"], rep, False)
+
+    def body(i):
+        a, n = i["a"], i["n"]
+        d = data.Duration(**kw)
+        r = build(data, fmt, reps, a, d, a + d if fmt == 1 else None)
+        s = data.Duration(**{unit: n})
+        o = {"r": r, "moved": r + s, "radd": s + r, "sub": r - data.Duration(**{unit: -n}), "want": {}}
+        names = {1: ("_start_point", "_second_point"), 3: ("_start_point",), 4: ("_end_point",)}[fmt]
+        for name in names:
+            o["want"][name] = getattr(r, name) + s
+        return o
+
+    def post(i, out):
+        if out[0] != "ok":
+            return [("no exception", False)]
+        o = out[1]
+        r, m = o["r"], o["moved"]
+        obs = [("same repetitions", m._repetitions == r._repetitions)]
+        if fmt != 1:
+            obs.append(("same interval", same_dur_z3(m._duration, r._duration)))
+        for name, want in o["want"].items():
+            for lab, z in (("r + d", m), ("d + r", o["radd"]), ("r - (-d)", o["sub"])):
+                got = getattr(z, name, None)
+                obs.append(("%s: %s is the anchor moved by d" % (lab, name[1:]),
+                            same_point_z3(got, want) if got is not None else False))
+        return obs
+
+    def case_of(v, i):
+        return {"check": "shift-nominal", "mode": mode, "fmt": fmt, "reps": reps, "iv": iv, "rep": rep,
+                "a": C.point_case(v, "", rep), "shift": {unit: v["n"]}}
+
+    return sym_run("shift-nominal[%s,fmt%d,R%s,%s,%s %d..%d,%s,%s]" % (mode, fmt, reps, iv, unit, lo, hi, rep, ranges), make, pre,
+                   body, post, case_of, ranges=ranges,
+                   scenarios=lambda i: {"nominal shift fmt%d" % fmt: True},
                    bounds={"interval": iv, "repetitions": reps, "shift": {unit: [lo, hi]}}, sample_every=100)
 
 
@@ -230,6 +281,8 @@ def replay(case, M):
             k = case["reps"] or 3
             bad = not (r2 == r) or [str(x) for x in take(r, k)] != [str(x) for x in take(r2, k)]
             return bad, "parse(str(r)) for r = %s gives %s" % (r, r2)
+        if case["check"] == "shift-nominal":
+            return _replay_shift_nominal(case, data, mode)
         a = C.build_point(data, case["a"])
         fmt, reps = case["fmt"], case["reps"]
         r = build(data, fmt, reps, a, d, a + d if fmt == 1 else None)
@@ -284,6 +337,27 @@ def replay(case, M):
         data.CALENDAR.set_mode("gregorian")
 
 
+def _replay_shift_nominal(case, data, mode):
+    a = C.build_point(data, case["a"])
+    d = data.Duration(**IV[case["iv"]])
+    fmt, reps = case["fmt"], case["reps"]
+    r = build(data, fmt, reps, a, d, a + d if fmt == 1 else None)
+    s = data.Duration(**case["shift"])
+    neg = data.Duration(**{k: -v for k, v in case["shift"].items()})
+    names = {1: ("_start_point", "_second_point"), 3: ("_start_point",), 4: ("_end_point",)}[fmt]
+    for lab, z in (("r + d", r + s), ("d + r", s + r), ("r - (-d)", r - neg)):
+        if z._repetitions != r._repetitions:
+            return True, "%s + %s = %s: repetitions changed" % (r, s, z)
+        if fmt != 1 and z._duration != r._duration:
+            return True, "%s + %s = %s: interval changed" % (r, s, z)
+        for name in names:
+            want, got = getattr(r, name) + s, getattr(z, name, None)
+            if got is None or str(got) != str(want):
+                return True, "%s: (%s) with d = %s gives %s, whose %s is %s; the anchor moved by d is %s" % (
+                    lab, r, s, z, name[1:], got, want)
+    return False, "%s + %s = %s" % (r, s, r + s)
+
+
 def jobs(tier):
     th = tier == "thorough"
     J = []
@@ -298,6 +372,18 @@ def jobs(tier):
                     for unit, lo, hi in (("hours", -50, 50), ("days", -40, 40)):
                         for a in (A if iv == "PT36H" or th else A[1:]):
                             J.append(("job_shift", dict(mode=mode, fmt=fmt, reps=reps, iv=iv, unit=unit, lo=lo, hi=hi, ranges=a)))
+        # shifts by month / year durations (anchors on month ends, calendar form; ordinal day 366 for years)
+        for fmt in (3, 4, 1):
+            for reps in (1, 3, None):
+                if fmt == 1 and reps == 1:
+                    continue
+                for iv in ("P31D", "P1M") if fmt != 1 else ("P31D", "PT36H"):
+                    J.append(("job_shift_nominal", dict(mode=mode, fmt=fmt, reps=reps, iv=iv, unit="months", lo=-3, hi=3,
+                                                        ranges={"M": (1, 3), "D": (27, 31)})))
+                J.append(("job_shift_nominal", dict(mode=mode, fmt=fmt, reps=reps, iv="P31D", unit="years", lo=-5, hi=5,
+                                                    ranges={"M": (1, 3), "D": (27, 31)})))
+                J.append(("job_shift_nominal", dict(mode=mode, fmt=fmt, reps=reps, iv="P1D", unit="years", lo=-5, hi=5, rep="ord",
+                                                    ranges={"DOY": (last - 1, last)})))
         for fmt in (3, 4, 1):
             for reps in (2, 3, None):
                 for vary in ("anchor", "interval", "reps", "respell"):
